@@ -631,7 +631,19 @@ def multi_engine(prop, tier, seed, count_override, coq):
             stat["trees"] = 1
             stat["shared_cache_trees" if mode == "shared" else ("blobdiff_trees" if mode == "blobdiff" else "config_variants")] = 1
             res.append((hist, tr, fails, drifts, stat))
-            olines.append([l for l in open(tr) if l.startswith("O ")])
+            # observations up to the first reopen that was not directly preceded by a flush: what
+            # an unflushed reopen loses may legitimately depend on the configuration (e.g. which
+            # operations flush implicitly), the answers before it may not
+            ol, prev_op, stop = [], "", False
+            for l in open(tr):
+                if l.startswith("H "):
+                    opw = l.split()[1] if len(l.split()) > 1 else ""
+                    if opw == "reopen" and prev_op not in ("flushactive", "flush"):
+                        stop = True
+                    prev_op = opw
+                elif l.startswith("O ") and not stop:
+                    ol.append(l)
+            olines.append(ol)
         if mode in ("blobdiff", "sep"):
             # a tree with another physical configuration (key-value separation, block / table
             # sizes) may allocate a different number of version seqnos (different file sizes ->
@@ -639,6 +651,10 @@ def multi_engine(prop, tier, seed, count_override, coq):
             # were asked at need not be (every tree is also held to the Spec at its own numbers)
             def strip_seq(l):
                 t = l.split()
+                if t[1] == "orange" and len(t) > 5:
+                    # O orange lo hi items S pulls results: overlay items are key:seqno:value
+                    items = ",".join(":".join(x.split(":")[::2]) for x in t[4].split(",")) if t[4] != "-" else "-"
+                    return " ".join(t[:4] + [items] + t[6:])
                 idx = {"get": 3, "range": 4, "prefix": 3}.get(t[1], 2)
                 return " ".join(t[:idx] + t[idx + 1:])
             olines = [[strip_seq(l) for l in ol] for ol in olines]
